@@ -438,11 +438,18 @@ impl IoLoop {
                     self.inner.write_to_stream(stream)?;
                 }
                 if event.readiness().is_readable() {
-                    self.inner.read_from_stream(
+                    let result = self.inner.read_from_stream(
                         stream,
                         &mut self.frame_buffer,
                         |inner, frame| state.process(inner, frame),
-                    )?;
+                    );
+                    // Once the server has confirmed our close the connection has ended
+                    // successfully; the server is free to drop the socket right behind
+                    // its CloseOk, and seeing that EOF in this same read is no error.
+                    if let ConnectionState::ClientClosed = state {
+                        return Ok(());
+                    }
+                    result?;
                 }
             }
             HEARTBEAT => self.inner.process_heartbeat_timers()?,
